@@ -15,7 +15,6 @@ package executor
 // The command's environment (C11): the process environment first, then the step's variables, then the DAG-level
 // entries, and after all of these the run's output variables — a later entry wins in os/exec, so a captured output
 // overrides an inherited variable of the same name.
-//@ ghost obs.cmd_env []string      // the command's environment before the output variables are appended
 //@ fn newCommand(ctx, step) (e, err)
 //@   props C05 C11
 //@   modifies *
@@ -30,6 +29,9 @@ package executor
 //@        len(cmd.Env) >= len(obs.environ) + len(step.Variables) + len(dagContext.Envs) &&
 //@        (forall i int :: 0 <= i && i < len(obs.environ) ==> cmd.Env[i] == obs.environ[i]) &&
 //@        (forall i int :: 0 <= i && i < len(step.Variables) ==> cmd.Env[len(obs.environ) + i] == step.Variables[i])
+//@   ensures [C05 step_runs_in_a_process_group_of_its_own] err == nil ==> (isType(e, "*commandExecutor") && asType(e, "*commandExecutor").cmd != nil &&
+//@        asType(e, "*commandExecutor").cmd.SysProcAttr != nil && asType(e, "*commandExecutor").cmd.SysProcAttr.Setpgid &&
+//@        asType(e, "*commandExecutor").cmd.SysProcAttr.Pgid == 0)
 
 // The callback that hands the run's output variables to the command: each entry (NAME=value) is appended to the
 // command's environment, after everything that is already there (so that it wins over an inherited variable).
